@@ -38,6 +38,7 @@ import (
 	"github.com/prometheus/alertmanager/provider/mem"
 	"github.com/prometheus/alertmanager/silence"
 
+	"verifharness/appsys"
 	"verifharness/vh"
 )
 
@@ -1031,6 +1032,11 @@ func postOracle(c *Case, op *Op, now int64, code int, prev, cur map[string]oaler
 func TestCheck(t *testing.T) {
 	env := vh.GetEnv()
 	run := vh.NewRun(env, "AM.Run.C13Run")
+	// app engine: the REAL application wiring (package app) in real time, in its own process; reports through run.
+	// true = the replay file held an app-engine case and has been handled.
+	if appsys.Part(t, env, run, "C13") {
+		return
+	}
 	strfmt.MarshalFormat = time.RFC3339Nano // GET bodies carry full-precision instants (default: milliseconds)
 	var cases []Case
 	if env.Replay != "" {
